@@ -1,0 +1,50 @@
+//go:build verif
+
+package iavl
+
+// Verification seams, compiled only with `-tags verif`. The deterministic
+// simulation harness installs the function variables below; while they are nil
+// the behaviour is the shipped behaviour.
+//
+//   - VerifPruneGate is asked before every asynchronous prune step of a writer
+//     loop ("leaf" / "tree"). It may block; returning false makes the loop
+//     re-enter its select so that save / prune / cancel signals are still taken.
+//   - VerifPruneIdle is told when a loop has no (more) pruning to do.
+//   - VerifSaveOrder / VerifSaveDone bracket the two halves of a SaveVersion
+//     (saveBranches in the tree loop, saveLeaves in the leaf loop) so that the
+//     simulator decides which half runs first.
+var (
+	VerifPruneGate func(writer any, loop string) bool
+	VerifPruneIdle func(writer any, loop string)
+	VerifSaveOrder func(writer any, loop string)
+	VerifSaveDone  func(writer any, loop string)
+)
+
+func verifPruneGate(w *sqlWriter, loop string) bool {
+	if f := VerifPruneGate; f != nil {
+		return f(w, loop)
+	}
+	return true
+}
+
+func verifPruneIdle(w *sqlWriter, loop string) {
+	if f := VerifPruneIdle; f != nil {
+		f(w, loop)
+	}
+}
+
+func verifSaveOrder(w *sqlWriter, loop string) {
+	if f := VerifSaveOrder; f != nil {
+		f(w, loop)
+	}
+}
+
+func verifSaveDone(w *sqlWriter, loop string) {
+	if f := VerifSaveDone; f != nil {
+		f(w, loop)
+	}
+}
+
+// VerifWriterOf returns the identity of the tree's writer (the value the
+// function variables above receive as `writer`).
+func VerifWriterOf(t *Tree) any { return t.sqlWriter }
